@@ -112,11 +112,56 @@ func (l *Log) begin(s *simrt.Sim, kind, name string, tags map[string]string) *Ev
 		e.Step = s.Step()
 		e.Now = s.Elapsed()
 	}
-	l.Events = append(l.Events, e)
+	l.addEvent(e)
 	return e
 }
 
+// The log is shared bookkeeping of all tasks; it is kept invisible to the race
+// detector (which must only see the accesses of the code under test).
+//
+//go:norace
+func (l *Log) addEvent(e *Event) { l.Events = simrt.AppendNR(l.Events, e) }
+
+//go:norace
+func (l *Log) addOp(r *OpRec) { l.Ops = simrt.AppendNR(l.Ops, r) }
+
+//go:norace
 func (l *Log) end(e *Event) { e.EndSeq = l.Next() }
+
+// flushesSince counts, per task, the completed Flush calls that began after seq.
+//
+//go:norace
+func (l *Log) twoFlushesSince(seq int) bool {
+	var tasks [8]int
+	var counts [8]int
+	n := 0
+	for j := len(l.Events) - 1; j >= 0; j-- {
+		e := l.Events[j]
+		if e.Seq <= seq {
+			break
+		}
+		if e.Kind == EvFlush && e.EndSeq != 0 {
+			k := -1
+			for i := 0; i < n; i++ {
+				if tasks[i] == e.Task {
+					k = i
+				}
+			}
+			if k < 0 && n < len(tasks) {
+				tasks[n], counts[n] = e.Task, 0
+				k = n
+				n++
+			}
+			if k >= 0 {
+				counts[k]++
+				if counts[k] >= 2 {
+					return true
+				}
+			}
+		}
+	}
+	return false
+}
 
 // Delivery is a value that reached the reporter, with cached handles resolved.
 type Delivery struct {
